@@ -131,6 +131,11 @@ func (x *xmlParser) Pull() (node.Node, bool, error) {
 			value: (string)(n),
 		}, false, nil
 	case xml.ProcInst:
+		if n.Target == "xml" {
+			// The XML declaration is not a node in the XPath data model.
+			return x.Pull()
+		}
+
 		return XmlProcInst{
 			target: n.Target,
 			value:  string(n.Inst),
